@@ -771,6 +771,47 @@ PrepCommit ==
           /\ Step("prep_commit", [id |-> IF touched /\ n > 0 THEN nextId ELSE 0],
                   Exp("ok", addr, [len |-> f.len, esz |-> f.esz, eal |-> f.eal, rev |-> f.rev, touched |-> touched]))
 
+\* ---- one-shot helpers: alloc_iter_mut / alloc_iter_mut_rev ----------------------------------------------------------
+\* = MutBumpVec(Rev)::with_capacity_in(size_hint.0) ; push every element ; into_boxed_slice -- in one call.
+\* `hint` is what the iterator claims (it may lie), `n` what it yields.
+RECURSIVE PushN(_, _, _, _)
+PushN(st, k, esz, eal) ==
+    IF k = 0 \/ ~st.ok THEN st
+    ELSE IF st.len < st.cap THEN PushN([st EXCEPT !.len = @ + 1], k - 1, esz, eal)
+    ELSE LET ncap == Max(Max(2 * st.cap, st.len + 1), MinNonZeroCap(esz))
+             r == DoPrep(st.chunks, st.cur, st.base, ncap * esz, eal, FALSE)
+         IN IF ~r.ok THEN [st EXCEPT !.ok = FALSE]
+            ELSE PushN([st EXCEPT !.chunks = r.chunks, !.cur = r.cur, !.base = r.base, !.lo = r.lo, !.hi = r.hi,
+                                  !.cap = (r.hi - r.lo) \div esz, !.len = @ + 1], k - 1, esz, eal)
+
+IterMut(e, rev, hint, n) ==
+    /\ Active /\ Free /\ Cardinality(LiveIds) < MaxBlocks /\ e.sz > 0 /\ e.sz % e.al = 0
+    /\ LET r0 == IF hint = 0 THEN [ok |-> TRUE, chunks |-> chunks, cur |-> cur, base |-> base, lo |-> 0, hi |-> 0]
+                 ELSE DoPrep(chunks, cur, base, hint * e.sz, e.al, FALSE)
+           st0 == [ok |-> r0.ok, chunks |-> r0.chunks, cur |-> r0.cur, base |-> r0.base, lo |-> r0.lo, hi |-> r0.hi,
+                   cap |-> IF hint = 0 \/ ~r0.ok THEN 0 ELSE (r0.hi - r0.lo) \div e.sz, len |-> 0]
+           st  == PushN(st0, n, e.sz, e.al)
+           bytes == st.len * e.sz
+           touched == st.cap > 0
+           addr == IF ~touched THEN 0 ELSE IF cfg.up THEN st.lo ELSE st.hi - bytes
+           npos == IF cfg.up THEN (IF e.al < ma THEN UpAlign(st.lo + bytes, ma) ELSE st.lo + bytes)
+                             ELSE (IF e.al < ma THEN DownAlign(st.hi - bytes, ma) ELSE st.hi - bytes)
+           made == st.ok /\ touched /\ bytes > 0
+       IN /\ st.ok                                   \* (no failure injection inside the helper)
+          /\ ~PrepNeedsBase(chunks, cur, Max(hint, 1) * e.sz, e.al) \/ TRUE
+          /\ chunks' = IF touched THEN [st.chunks EXCEPT ![st.cur].pos = npos] ELSE st.chunks
+          /\ cur' = st.cur /\ base' = st.base
+          /\ blocks' = IF made THEN [i \in LiveIds \cup {nextId} |-> IF i = nextId THEN [addr |-> addr, sz |-> bytes, al |-> e.al] ELSE blocks[i]]
+                       ELSE blocks
+          /\ nextId' = IF made THEN nextId + 1 ELSE nextId
+          /\ order' = IF made THEN Append(order, nextId) ELSE order
+          /\ parts' = parts \cap DOMAIN blocks'
+          /\ last' = 0
+          /\ UNCHANGED <<cfg, ma, frames, cps, fails, dropped>>
+          /\ Step("iter_mut", [esz |-> e.sz, eal |-> e.al, rev |-> rev, hint |-> hint, n |-> n, id |-> IF made THEN nextId ELSE 0],
+                  Exp("ok", addr, [len |-> st.len, esz |-> e.sz, eal |-> e.al, rev |-> rev, touched |-> touched,
+                                   newchunk |-> Len(st.chunks) > Len(chunks)]))
+
 \* the collection is dropped (or unwound) without being finalised: nothing changes
 PrepDrop(how) ==
     /\ Active /\ InPrep
